@@ -242,13 +242,60 @@ def exhaustive_gt_texts(max_ploidy):
     return out
 
 
-def single_call_spec(gt_text, with_tags=True, fmt=None, call=None):
-    fmt = fmt if fmt is not None else (["GT", "DP", "PS", "HP", "PQ"] if with_tags else ["GT"])
-    call = call if call is not None else ([gt_text, "7", "100", "100-1,100-2", "30"][:len(fmt)])
+TAG_VALUES = {"DP": "7", "PS": "100", "HP": "100-1,100-2", "PQ": "30"}
+
+
+def single_call_spec(gt_text, with_tags=True, fmt=None, call=None, tags=None):
+    """one record, one sample.  tags: the FORMAT keys next to GT (default DP PS HP PQ / none); gt_text None = no GT"""
+    if fmt is None:
+        keys = list(tags) if tags is not None else (["DP", "PS", "HP", "PQ"] if with_tags else [])
+        fmt = (["GT"] if gt_text is not None else []) + keys
+        call = ([gt_text] if gt_text is not None else []) + [TAG_VALUES[k] for k in keys]
+    elif call is None:
+        call = [gt_text, "7", "100", "100-1,100-2", "30"][:len(fmt)]
     return {"samples": ["S1"], "contigs": ["chrA"], "phasing": ["whatshap"], "info_ps": False,
             "formats": [["GT", "1", "String"], ["DP", "1", "Integer"], ["PS", "1", "Integer"], ["HP", ".", "String"],
                         ["PQ", "1", "Integer"]], "profile": "single",
             "records": [{"fixed": ["chrA", 100, ".", "A", "C", ".", "PASS", "."], "format": fmt, "calls": [call]}]}
+
+
+def multi_call_spec(fmt, calls, nrec_before=0):
+    """one record with several samples (calls = list of sub-field lists), optionally after plain records"""
+    s = single_call_spec("0/1")
+    s["samples"] = [f"S{i + 1}" for i in range(len(calls))]
+    recs = [{"fixed": ["chrA", 50 + i, ".", "A", "C", ".", "PASS", "."], "format": ["GT"],
+             "calls": [["0|1"] for _ in calls]} for i in range(nrec_before)]
+    recs.append({"fixed": ["chrA", 100, ".", "A", "C", ".", "PASS", "."], "format": list(fmt), "calls": [list(c) for c in calls]})
+    s["records"] = recs
+    return s
+
+
+# tag sets attached to the exhaustive genotypes: chosen independently of the separator
+TAG_SETS = [[], ["PS"], ["HP"], ["PQ"], ["DP", "PS", "HP", "PQ"], ["DP"], ["PS", "PQ"]]
+
+
+def exhaustive_specs(max_ploidy, full_tags_upto=3):
+    """every genotype text of exhaustive_gt_texts; up to ploidy `full_tags_upto` with every tag set, above with a
+    tag set cycling over the allele tuples (the same for the '/' and the '|' form of a genotype)"""
+    import itertools
+    out = []
+    n = 0
+    for p in range(1, max_ploidy + 1):
+        for al in itertools.product(["0", "1", "."], repeat=p):
+            texts = [al[0]] if p == 1 else ["/".join(al), "|".join(al)]
+            n += 1
+            sets = TAG_SETS if p <= full_tags_upto else [TAG_SETS[n % len(TAG_SETS)], TAG_SETS[(n // 7 + 3) % len(TAG_SETS)]]
+            seen = []
+            for ts in sets:
+                if ts in seen:
+                    continue
+                seen.append(ts)
+                for t in texts:
+                    out.append(single_call_spec(t, tags=ts))
+    # tag-only records without GT
+    for ts in TAG_SETS[1:]:
+        out.append(single_call_spec(None, tags=ts))
+    return out
 
 
 # ------------------------------------------------------------------------------------------ parser
